@@ -644,6 +644,13 @@ func (fr *Frame) loopHead(li *loopInfo, st *State, reach Term) *State {
 		t := fr.v.evalBool(env, inv.Expr)
 		fr.ctx.assert(implies(reach, t), "assume invariant: "+inv.Text)
 	}
+	for _, as := range li.spec.Assumes {
+		env := fr.specEnv(hs, fr.oldSt)
+		env.at = b
+		t := fr.v.evalBool(env, as.Expr)
+		fr.ctx.assert(implies(reach, t), "ASSUMED at loop head (listed in evidence): "+as.Text)
+		fr.v.note(fr.objPfx + ": assumed at loop head without proof: " + as.Text)
+	}
 	// frame-as-invariant: for top frames with a modifies clause, pre-existing objects outside the
 	// modifies list keep their entry values (re-proved at back edges).
 	for _, t := range fr.frameTerms(hs, mods) {
